@@ -69,7 +69,8 @@ def couplings_case(rng):
     full_th = cards.theory_card(**th)
     full_ob = cards.obs_card({}, **ob)
     cc = CouplingConstants.from_dict(full_th, full_ob)
-    Q2 = dyadic(rng, 0.5, 20000.0, 16)
+    # half of the cases share a few virtualities: different electroweak parameters at the SAME Q2 in one process (memos keyed by Q2 alone)
+    Q2 = rng.choice([4.0, 90.0, 8100.0]) if rng.random() < 0.5 else dyadic(rng, 0.5, 20000.0, 16)
     qs = []
     proc = ob["prDIS"]
     masks = ["dus", "dusc", "duscb", "duscbt", "c", "b", "t"]
@@ -144,7 +145,7 @@ def rand_config(rng, fixed=None):
     ob.update(TargetDIS=dict(Z=z, A=a) if rng.random() < 0.5 else dict(A=a, Z=z))
     kind = rng.choice(KINDS)
     heavy = rng.choice(HEAVYNESS)
-    Q2 = rng.choice([dyadic(rng, 1.0, 64.0, 8), dyadic(rng, 1.0, 40000.0, 12)])
+    Q2 = rng.choice([dyadic(rng, 1.0, 64.0, 8), dyadic(rng, 1.0, 40000.0, 12), rng.choice([4.0, 90.0, 8100.0])])
     cfg = dict(theory=th, obs=ob, kind=kind, heavyness=heavy, Q2=Q2)
     if fixed:
         for k, v in fixed.items():
